@@ -158,6 +158,26 @@ def c18(tier):
                   assumptions=SF_ASSUME, t0=t0)
 
 
+@check("C05")
+def c05(tier):
+    t0 = time.time()
+    bf, b5, bs = build("flow"), build("nf5"), build("sflowc")
+    res = []
+    for p in ("ipfix", "v9"):
+        for sp in ("json.pos", "json.pairs", "json.shape"):
+            res.append(run_space(bf, p + "." + sp, tier))
+    r5 = run_space(b5, "v5.rec", tier)
+    r5.viol = [v for v in r5.viol if v["sig"].startswith("v5:json")]  # field mapping itself is C08's
+    res.append(r5)
+    for sp in ("sflow.seq", "sflow.onehot", "sflow.frames"):
+        res.append(run_space(bs, sp, tier))
+    return finish("C05", tier, res,
+                  rule="IPFIX/v9: a value alphabet aimed at the encoder (strings with each of the 32 control characters, quote, backslash, slash, DEL, U+2028, 2/3/4-byte UTF-8, four kinds of invalid UTF-8, empty, HTML, 300 octets, JSON-looking; float32/64: +-0, +-Inf, quiet/signalling NaN, min/max denormal, max finite, 1e21, 1e-7, 0.1; booleans from octets 0,1,2,255; every integer width at 0/1/max/min; MAC, IPv4, IPv6 (::, ::1, v4-mapped, v4-compatible, all-ones); octet arrays of 0..3; reduced-size encodings; enterprise numbers 1, 29305, 2^32-1) "
+                       "placed first/middle/last/alone in a record, as scope or option field, from 4 exporter address forms; every ordered PAIR of values in one record; 1..3 sets x 1..3 records x 1..3 fields. v5: the C08 space, JSON oracle only. sFlow: the C07 sequence, one-hot and frame spaces (published JSON compared with the reference tree). "
+                       "Oracle: json.Valid, valid UTF-8, single document, exact key sets, integers as exact decimals, floats bit-exact after ParseFloat (non-finite: any string naming the class), strings equal up to U+FFFD substitution, addresses canonical and parsing back to the same octets, 0x-hex octet arrays. Non-trivial = every case; distinct = wire octets x exporter.",
+                  assumptions=FLOW_ASSUME + SF_ASSUME + ["a JSONMarshal error on a decodable message is reported here too (nothing valid can be published for it)"], t0=t0)
+
+
 def main(argv):
     if len(argv) >= 1 and argv[0] == "--setup":
         for n in BINARIES:
